@@ -67,7 +67,11 @@ class PC(GL_book_model):
         # Add a decorative equation: Government Fiscal Balance
         # = Primary Balance - Interest expense + Central Bank Dividend (= interest
         # received by the central bank).
-        tre.AddVariable('FISCBAL', 'Fiscal Balance', 'PRIM_BAL - INTDEP + CB__INTDEP')
+        # Declare the central bank's interest income now (the DepositMarket fills it in), so that
+        # its name can be requested - the full code differs when embedded in a multi-country model.
+        cb.AddVariable('INTDEP', 'Interest received on deposits', '')
+        tre.AddVariable('FISCBAL', 'Fiscal Balance',
+                        'PRIM_BAL - INTDEP + ' + cb.GetVariableName('INTDEP'))
 
         if self.UseBookExogenous:
             # Need to set the exogenous variable - Government demand for Goods ("G" in economist symbology)
@@ -76,10 +80,10 @@ class PC(GL_book_model):
             # NOTE:
             # Initial conditions are only partial; there may be issues with some
             # variables.
-            self.Model.AddInitialCondition('HH', 'AfterTax', 86.486)
-            self.Model.AddInitialCondition('HH', 'F', 86.486)
-            self.Model.AddInitialCondition('TRE', 'F', -86.486)
-            self.Model.AddInitialCondition('HH', 'DEM_DEP', 64.865)
+            hh.AddInitialCondition('AfterTax', 86.486)
+            hh.AddInitialCondition('F', 86.486)
+            tre.AddInitialCondition('F', -86.486)
+            hh.AddInitialCondition('DEM_DEP', 64.865)
             self.Model.AddGlobalEquation('t', 'decorated time axis', '1950. + k')
         return self.Model
 
